@@ -41,6 +41,8 @@ func generic(x *mcrt.Exec) (sig, what string) {
 	switch {
 	case x.Out.Panic != "":
 		return "panic", "a thread of the program panicked: " + firstLines(x.Out.Panic, 12)
+	case x.Out.Invariant != "":
+		return "invariant", x.Out.Invariant
 	case x.Out.Fatal != "":
 		return "fatal", firstLines(x.Out.Fatal, 12)
 	case x.Out.Deadlock:
